@@ -2,7 +2,7 @@ SPECIFICATION Spec
 CONSTANTS
   Seeds <- MCSeeds
   ScenariosOf <- MCScenariosOf
-  MaxRead = 16
+  MaxRead = 6
   KF_FastInvertSkipsStopLine = FALSE
   KF_ReaderByteCountIgnoresPartial = FALSE
   MaxLines = 4
@@ -11,7 +11,7 @@ CONSTANTS
   Terms = {"lf", "crlf"}
   Strats = {"reader", "slice"}
   Paths = {"slow", "fast"}
-  Caps = {1, 3, 6}
+  Caps = {1, 3}
   Flags = {"inv", "pass"}
   Bins = {"quit", "convert"}
   PlanKinds = {"stop"}
